@@ -1685,6 +1685,8 @@ func (ex *Exec) siteAsserts(fr *frame, st *State, cc *ssa.CallCommon, instr ssa.
 		name = cc.Method.Name()
 	} else if f := cc.StaticCallee(); f != nil {
 		name = f.Name()
+	} else if _, isB := cc.Value.(*ssa.Builtin); !isB {
+		name = "dyn" // a call of a function value (`assert call:dyn ...`)
 	}
 	if name == "" {
 		return
@@ -1713,6 +1715,8 @@ func (ex *Exec) siteAsserts(fr *frame, st *State, cc *ssa.CallCommon, instr ssa.
 				n = common.Method.Name()
 			} else if f := common.StaticCallee(); f != nil {
 				n = f.Name()
+			} else if _, isB := common.Value.(*ssa.Builtin); !isB {
+				n = "dyn"
 			}
 			if n != name {
 				continue
